@@ -1280,11 +1280,36 @@ class Interp:
         try:
             rec(0)
         except _SymComp as sc:
-            if len(gens) != 1 or gens[0].ifs:
-                raise EngineError("symbolic comprehension with filter / nesting")
+            if len(gens) != 1:
+                raise EngineError("symbolic comprehension with nesting")
             n, item_at = sc.sym
             g = gens[0]
             env0 = dict(frame.env)
+            if g.ifs:
+                # [elt for x in seq if cond(x)]: the items at the positions where cond holds, in increasing order of position
+                # (relational contract of relops.select: SEL enumerates the selected positions increasingly)
+                from .relops import select
+
+                def mask(i, env0=env0, g=g):
+                    f2 = Frame(frame.module, dict(env0), frame.fname)
+                    self.assign(g.target, item_at(i), f2)
+                    conds = []
+                    for c in g.ifs:
+                        v = norm(self.eval(c, f2))
+                        if isinstance(v, SV) and v.is_bool:
+                            conds.append(v)
+                        elif isinstance(v, bool):
+                            conds.append(v)
+                        else:
+                            raise EngineError("filter of a symbolic comprehension is not a boolean")
+                    return sv.and_(*conds) if len(conds) != 1 else conds[0]
+                _, sel_app, _, cnt = select(mask, n)
+
+                def fnf(t, env0=env0, g=g):
+                    f2 = Frame(frame.module, dict(env0), frame.fname)
+                    self.assign(g.target, item_at(sel_app(t)), f2)
+                    return self.eval(node.elt, f2)
+                return Ref(cur().alloc(Content("list", A.SeqVal(A.simp(cnt), fnf))), "list")
 
             def fn(i, env0=env0, g=g):
                 f2 = Frame(frame.module, dict(env0), frame.fname)
